@@ -71,7 +71,7 @@ class Dag:
         if isinstance(j, float):
             if math.isnan(j) or math.isinf(j):
                 raise Unprintable("non-finite number")
-            if j == int(j) and abs(j) < 2 ** 63:
+            if j.is_integer():          # JSON Schema: 2.0 is an integer
                 return self._mk(("i", int(j)), ("i", int(j)))
             return self._mk(("f", repr(j)), ("f", self.s(repr(j))))
         if isinstance(j, str):
@@ -165,6 +165,21 @@ class Dag:
                 else:
                     out[k] = t
         return ("[" + "; ".join(strs) + "]", "[" + ";\n".join(defs) + "]", didx)
+
+
+def _no_dups(pairs):
+    d = {}
+    for k, v in pairs:
+        if k in d:
+            raise Unprintable("duplicate member %r in an object" % k)
+        d[k] = v
+    return d
+
+
+def parse(text: str):
+    """the emitted text as Python data; duplicate members (never produced by pydantic; Python's json would silently
+    keep the last) are refused"""
+    return json.loads(text, object_pairs_hook=_no_dups)
 
 
 def gopt_string(s):
